@@ -79,6 +79,120 @@ func Apply(op string, c *grammar.CFG) (out *grammar.CFG, kind, msg string) {
 	return out, "", ""
 }
 
+// ---------------------------------------------------------------- terminals named like non-terminals
+//
+// The library tells Terminal("if") and NonTerminal("if") apart by type; the shared line protocol tells
+// body words apart by name.  In the case files of C08/C09 a word that starts with ' is the terminal named by
+// the rest of the word.  The canonical form (used inside the harness, in case files and in the printed result
+// grammars on both sides) writes the quote exactly when the bare name is a declared non-terminal of that
+// grammar; sentences are printed with bare names.
+
+const Q = "'"
+
+// Bare strips the terminal quote.
+func Bare(w string) string { return strings.TrimPrefix(w, Q) }
+
+func isTermWord(g gx.G, w string) bool { return strings.HasPrefix(w, Q) || !g.IsNonTerm(w) }
+
+// Norm rewrites every terminal word into canonical form.
+func Norm(g gx.G) gx.G {
+	canon := func(w string) string {
+		if !isTermWord(g, w) {
+			return w
+		}
+		if b := Bare(w); g.IsNonTerm(b) {
+			return Q + b
+		} else {
+			return b
+		}
+	}
+	h := gx.G{NonTerms: append([]string{}, g.NonTerms...), Start: g.Start}
+	for _, t := range g.Terms {
+		b := Bare(t)
+		if g.IsNonTerm(b) {
+			h.Terms = append(h.Terms, Q+b)
+		} else {
+			h.Terms = append(h.Terms, b)
+		}
+	}
+	for _, p := range g.Prods {
+		q := gx.P{Head: p.Head}
+		for _, w := range p.Body {
+			q.Body = append(q.Body, canon(w))
+		}
+		h.Prods = append(h.Prods, q)
+	}
+	return h
+}
+
+// ToCFG builds the library grammar from a canonical gx.G (terminals get their bare names).
+func ToCFG(g gx.G) *grammar.CFG {
+	ts := make([]grammar.Terminal, len(g.Terms))
+	for i, t := range g.Terms {
+		ts[i] = grammar.Terminal(Bare(t))
+	}
+	ns := make([]grammar.NonTerminal, len(g.NonTerms))
+	for i, n := range g.NonTerms {
+		ns[i] = grammar.NonTerminal(n)
+	}
+	ps := make([]*grammar.Production, len(g.Prods))
+	for i, p := range g.Prods {
+		body := grammar.String[grammar.Symbol]{}
+		for _, w := range p.Body {
+			if isTermWord(g, w) {
+				body = append(body, grammar.Terminal(Bare(w)))
+			} else {
+				body = append(body, grammar.NonTerminal(w))
+			}
+		}
+		ps[i] = &grammar.Production{Head: grammar.NonTerminal(p.Head), Body: body}
+	}
+	return grammar.NewCFG(ts, ns, ps, grammar.NonTerminal(g.Start))
+}
+
+// FromCFG reads a library grammar back into canonical form (sorted). It reads every set and every
+// production's head and body symbol by symbol, so it is a deep, independent rendering of the value.
+func FromCFG(c *grammar.CFG) gx.G {
+	var g gx.G
+	isN := map[string]bool{}
+	for n := range c.NonTerminals.All() {
+		g.NonTerms = append(g.NonTerms, string(n))
+		isN[string(n)] = true
+	}
+	// heads and body non-terminals that are not declared must still be told apart from terminals
+	tw := func(t grammar.Terminal) string {
+		if isN[string(t)] {
+			return Q + string(t)
+		}
+		return string(t)
+	}
+	for t := range c.Terminals.All() {
+		g.Terms = append(g.Terms, tw(t))
+	}
+	sort.Strings(g.Terms)
+	sort.Strings(g.NonTerms)
+	for p := range c.Productions.All() {
+		q := gx.P{Head: string(p.Head)}
+		for _, s := range p.Body {
+			if t, ok := s.(grammar.Terminal); ok {
+				q.Body = append(q.Body, tw(t))
+			} else {
+				q.Body = append(q.Body, s.Name())
+			}
+		}
+		g.Prods = append(g.Prods, q)
+	}
+	key := func(p gx.P) string {
+		if len(p.Body) == 0 {
+			return p.Head + "→ε"
+		}
+		return p.Head + "→" + strings.Join(p.Body, " ")
+	}
+	sort.Slice(g.Prods, func(i, j int) bool { return key(g.Prods[i]) < key(g.Prods[j]) })
+	g.Start = string(c.Start)
+	return g
+}
+
 // NameExhausted: the documented panic of AddNewNonTerminal when every candidate name is taken.
 func NameExhausted(msg string) bool {
 	return strings.HasPrefix(msg, "Failed to generate a new non-terminal")
@@ -90,18 +204,9 @@ func NameExhausted(msg string) bool {
 // alphabeticSuffixes, and the digits the numeric suffixes are made of).
 var ReservedSuffixes = []string{"′", "″", "‴", "⁗", "ₙ", "ⁿ", "ᴺ", "₀", "₁", "₂", "₃", "₄", "₅", "₆", "₇", "₈", "₉"}
 
-// Hygienic: no declared name ends in a reserved suffix, and terminal and non-terminal names are
-// disjoint (the line protocol tells the two kinds apart by name).
+// Hygienic: no declared name ends in a reserved suffix (only used for the distribution histogram and
+// for the hypotheses of the totality theorems; the oracles do not depend on it).
 func Hygienic(g gx.G) bool {
-	names := map[string]bool{}
-	for _, n := range g.NonTerms {
-		names[n] = true
-	}
-	for _, t := range g.Terms {
-		if names[t] {
-			return false
-		}
-	}
 	for _, s := range append(append([]string{}, g.Terms...), g.NonTerms...) {
 		for _, suf := range ReservedSuffixes {
 			if strings.HasSuffix(s, suf) {
@@ -170,8 +275,8 @@ func EpsOnly(g gx.G) []string {
 
 func isUnit(g gx.G, p gx.P) bool { return len(p.Body) == 1 && g.IsNonTerm(p.Body[0]) }
 
-// NoEmptyExceptFreshStart: the only ε-production allowed is start → ε for a start symbol that differs
-// from orig's start and occurs in no body.
+// NoEmptyExceptFreshStart: the only ε-production allowed is start → ε for a start symbol that is not a
+// declared non-terminal of orig (a new name) and occurs in no body.
 func NoEmptyExceptFreshStart(orig, g gx.G) (bool, string) {
 	for _, p := range g.Prods {
 		if len(p.Body) > 0 {
@@ -180,8 +285,8 @@ func NoEmptyExceptFreshStart(orig, g gx.G) (bool, string) {
 		if p.Head != g.Start {
 			return false, p.Head + "→ε and " + p.Head + " is not the start symbol"
 		}
-		if g.Start == orig.Start {
-			return false, "start→ε kept on the original start symbol"
+		if orig.IsNonTerm(g.Start) {
+			return false, "start→ε on " + g.Start + ", which is a non-terminal of the input, not a new name"
 		}
 		for _, q := range g.Prods {
 			for _, s := range q.Body {
@@ -378,6 +483,23 @@ func LangOf(g gx.G, k int) map[string]bool {
 	return l
 }
 
+// BareLang strips the terminal quotes from every word of every sentence.
+func BareLang(l map[string]bool) map[string]bool {
+	out := make(map[string]bool, len(l))
+	for w := range l {
+		if !strings.Contains(w, Q) {
+			out[w] = true
+			continue
+		}
+		f := strings.Fields(w)
+		for i := range f {
+			f[i] = Bare(f[i])
+		}
+		out[strings.Join(f, " ")] = true
+	}
+	return out
+}
+
 // BoundFor picks the length bound of the language comparison for input grammar g: 6, lowered to 5 or 4
 // for grammars whose language is so dense (more than 60 / 200 sentences of length <= 4) that the
 // fixpoint enumeration up to 6 would dominate the run.
@@ -394,7 +516,7 @@ func BoundFor(g gx.G) int {
 
 // SameLang compares the sentences of length ≤ k; on a difference it names one sentence.
 func SameLang(a, b gx.G, k int) (bool, string) {
-	la, lb := LangOf(a, k), LangOf(b, k)
+	la, lb := BareLang(LangOf(a, k)), BareLang(LangOf(b, k))
 	var lost, gained []string
 	for w := range la {
 		if !lb[w] {
